@@ -259,6 +259,10 @@ pub struct QueryEngine {
 
     /// Active queries.
     queries: HashMap<QueryId, QueryType>,
+
+    /// Verification hook: peer timeout forced on every `FIND_NODE`-based query.
+    #[cfg(feature = "verif")]
+    verif_peer_timeout: Option<std::time::Duration>,
 }
 
 impl QueryEngine {
@@ -273,6 +277,8 @@ impl QueryEngine {
             replication_factor,
             parallelism_factor,
             queries: HashMap::new(),
+            #[cfg(feature = "verif")]
+            verif_peer_timeout: None,
         }
     }
 
@@ -871,6 +877,9 @@ impl QueryEngine {
 
     /// Get next action from the [`QueryEngine`].
     pub fn next_action(&mut self) -> Option<QueryAction> {
+        #[cfg(feature = "verif")]
+        self.verif_apply_peer_timeout();
+
         for state in self.queries.values_mut() {
             let action = match state {
                 QueryType::FindNode { context } => context.next_action(),
@@ -965,6 +974,24 @@ impl QueryEngine {
             Some(QueryType::PutRecord { context, .. }) => context.verif_age_pending(by),
             Some(QueryType::AddProvider { context, .. }) => context.verif_age_pending(by),
             _ => true,
+        }
+    }
+
+    /// Verification hook: from now on every `FIND_NODE`-based query, present or future, uses
+    /// this peer timeout.
+    pub fn verif_force_peer_timeout(&mut self, timeout: std::time::Duration) {
+        self.verif_peer_timeout = Some(timeout);
+    }
+
+    fn verif_apply_peer_timeout(&mut self) {
+        let Some(timeout) = self.verif_peer_timeout else { return };
+        for state in self.queries.values_mut() {
+            match state {
+                QueryType::FindNode { context } => context.verif_set_peer_timeout(timeout),
+                QueryType::PutRecord { context, .. } => context.verif_set_peer_timeout(timeout),
+                QueryType::AddProvider { context, .. } => context.verif_set_peer_timeout(timeout),
+                _ => {}
+            }
         }
     }
 
